@@ -108,6 +108,8 @@ func checkC08(c *Ctx) {
 	ruleQueueHandOver(c, "C08.k")
 	c.rule("C08.l", "an index sentinel (-1 until a loop finds a position) is tested only by comparisons that separate -1 from every index", 1)
 	ruleSentinelTests(c, "C08.l", "imapserver", "imapserver/imapmemserver")
+	c.rule("C08.m", "the connection's update writers put every update they are given on the wire", 2)
+	ruleUpdateWritersUnconditional(c, "C08.m")
 	// expungeLocked: per removed message exactly one QueueExpunge: the call and the "keep" append are the two arms of one test
 	if ex := p.Func("imapserver/imapmemserver", "Mailbox", "expungeLocked"); ex != nil {
 		okArms := false
@@ -615,6 +617,8 @@ func checkC09(c *Ctx) {
 	ruleExpungeOrder(c, "C09.i")
 	c.rule("C09.j", "a per-round verdict that a loop overwrites is branched on before the next round (LIST: a mailbox matching any pattern is listed)", 1)
 	ruleOverwrittenVerdict(c, "C09.j", "imapserver", "imapserver/imapmemserver")
+	c.rule("C09.k", "the saved search result is replaced whenever SAVE is requested, and only after the criteria were resolved against the previous one", 2)
+	ruleSearchResDiscipline(c, "C09.k")
 }
 
 // ruleNamespaceKeys: C09.e. Every insertion into User.mailboxes uses, as
